@@ -85,7 +85,8 @@ class KeyHooks(Hooks):
                     raise Raised(ExcVal('ValueError', ('base58',)))
                 return App('raw', args[0])
             if q == f'{ENC}.scrub_input':
-                return args[0]
+                # str/bytes/hex normalisation; marked when a rule has to tell the normalised value from the caller's raw one
+                return App('scrub', args[0]) if getattr(self, 'scrub_marks', False) else args[0]
             if q == 'pytezos.crypto.key.blake2b_32':
                 return App('blake2b', args[0] if args else b'', 32)
             if q == 'pytezos.crypto.key.get_passphrase':
